@@ -322,7 +322,7 @@ PROPS = {
     },
     "C02": {
         "streams": ["rt", "big"],
-        "rule": "dec requests on encode(v) ++ random suffix (0..3 bytes) for every catalogue type; lengths straddling k*16KiB/size_of for 22 element/collection combinations incl. ZST elements; oracle on the implementation: decoded value text == original (bit-equal floats, heaps as sorted multisets) and remaining == suffix length. non-trivial = distinct request whose model answer is not `err`",
+        "rule": "dec requests on encode(v) ++ random suffix (0..3 bytes) for every catalogue type; lengths straddling k*16KiB/size_of for 22 element/collection combinations incl. ZST elements; oracle on the implementation: decoded value text == original (bit-equal floats, heaps as sorted multisets) and remaining == suffix length. non-trivial = distinct request whose model answer is not `err` Also: 160 seeded random compositions of built-in types (depth <= 3); big lengths decoded twice in a row through an unknown-length input and IoReader (value and bytes consumed); strings whose multi-byte characters straddle every 16 KiB boundary.",
         "level_text": "Proved in Lean: for every well-formed value of every modelled type and every suffix, running the transliterated decoder (chunked item reader, bulk read_vec_from_u8s, hook calls, PrefixInput reads, from_iter for maps/sets, bit-sequence truncation) on Spec.encode v ++ rest returns (norm v, rest) - by structural induction, so it crosses the 16 KiB chunk loop for all lengths. norm is the identity except that heaps are compared as sorted multisets (permutation proved). Tied to the crate by the rt/big streams and by the implementation-side oracle decode(encode v) == v.",
         "level_note": "Trusted: as C01. Hypotheses, all decidable and exhibited satisfiable: wf (ranges, counts < 2^32, bits < 2^29, valid UTF-8), canon (map/set keys strictly increasing under the modelled Ord - std's Ord is a contract, exercised by the tie), layoutOk (the crate's own compile-time size_of <= MAX_PREALLOCATION assertion). Values in a skipped variant are excluded (no encoding by design); skipped fields are not part of the model value (the harness checks they come back as Default).",
         "trusted_base": COMMON_TB + ["std Ord of key types, BTreeMap/BTreeSet::from_iter, BinaryHeap::from(Vec), String::from_utf8 modelled by contract"],
@@ -341,7 +341,7 @@ PROPS = {
         "custom": c03_run,
         "streams": ["mut", "rand", "exh", "utf8", "big"],
         "disagreement_is_violation": True,
-        "rule": "dec requests for every catalogue type on four byte-string streams: mutations of valid encodings (bit flips, boundary bytes, truncation, extension, count tampering at the front and at inner positions with {0,1,2,63..65,2^14-1,2^14,2^30-1,2^30,2^32-2,2^32-1}, splices, insert/delete), random strings (tag-biased), exhaustive strings of length <=1 for all types and <=2 for small-alphabet types (boundary alphabet otherwise), and the UTF-8 stream (all 1-2 byte strings, 3-byte strings with lead E0..EF x all second bytes, boundary 4-byte forms); every call in catch_unwind. non-trivial = distinct request whose model answer is not `err`",
+        "rule": "dec requests for every catalogue type on four byte-string streams: mutations of valid encodings (bit flips, boundary bytes, truncation, extension, count tampering at the front and at inner positions with {0,1,2,63..65,2^14-1,2^14,2^30-1,2^30,2^32-2,2^32-1}, splices, insert/delete), random strings (tag-biased), exhaustive strings of length <=1 for all types and <=2 for small-alphabet types (boundary alphabet otherwise), and the UTF-8 stream (all 1-2 byte strings, 3-byte strings with lead E0..EF x all second bytes, boundary 4-byte forms); every call in catch_unwind. non-trivial = distinct request whose model answer is not `err` Also: `decpos` requests (where the slice stands after a FAILED decode); implementation-side oracles in `big`: 2^29-1 bits accepted and 2^29 bits rejected with 64 MiB of storage words present; straddling strings; 160 random compositions.",
         "level_text": "Proved in Lean for every byte string: the modelled decoder is total (kernel-accepted recursion) and never panics (the unreachable!/assert!/UNEXPECTED ERROR sites are dead); it consumes a prefix only; for every wire-canonical type (all but maps/sets/heaps/bit sequences) decode bs = (ok v, rest) IFF wf v and bs = SCALE-encoding(v) ++ rest - the decoder accepts exactly the SCALE language; for EVERY type without bit sequences, incl. maps/sets/heaps at any nesting, decode bs = (ok v, rest) IFF bs = SCALE-encoding(raw) ++ rest for some well-formed raw and v = raw order-normalised (heaps sorted, maps/sets rebuilt by from_iter: any order and duplicates accepted, later entry wins) - via the theorem that such a decoder IS the decoder of the same type with plain sequences followed by normalisation, on every input; bit sequences: accepted inputs are exactly count <= 2^29-1 plus ceil(n/w) words of any content, value = first n unpacked bits (padding not inspected); each rejection the property names is a theorem (bad tags for bool/Option/Result/OptionBool, unknown variant index, zero NonZero, nanos >= 10^9, invalid UTF-8, non-minimal/over-wide compact, > 2^29-1 bits, primitive count exceeding the data). The model is tied to the crate on ~10^5 hostile and random strings per run incl. an exhaustive-prefix UTF-8 stream.",
         "level_note": "Known finding F5 (derived Decode on a type cycle that consumes no byte per level never returns) is probed in a process of its own and reported as KNOWN-FINDING; the model's types are finite trees, so such a type has no descriptor - that is the point the theorems exclude. Trusted: as C01. utf8Valid is the model's own UTF-8 automaton; its agreement with core::str::from_utf8 is established by the utf8 stream, not by proof. Out-of-bounds reads are not expressible in the model (the slice bounds check is modelled). Non-productive recursive types (finding F5) have no finite unfolding and are outside the model. For maps/sets/heaps/bit sequences only soundness (round trip of the normalised value), not the iff, is proved: their documented non-canonical acceptances (unsorted/duplicate entries, heap order, padding bits) are by design.",
         "trusted_base": COMMON_TB + ["core::str::from_utf8 (contract: utf8Valid), checked on the utf8 stream"],
@@ -349,7 +349,7 @@ PROPS = {
     },
     "C18": {
         "streams": ["skip", "len", "big"],
-        "rule": "skip vs dec (outcome and remaining length) for every catalogue type on valid+suffix, mutated, truncated and exact encodings; encoded_fixed_size() of every catalogue type vs the model; DecodeLength::len on generated values (incl. 20k-element ones) of the six collections and of tuples led by them, and on mutated strings. Oracles on the implementation: skip == decode (ok-ness and position), len == true element count, fixed size == every value's size. non-trivial = distinct request whose model answer is not `err`",
+        "rule": "skip vs dec (outcome and remaining length) for every catalogue type on valid+suffix, mutated, truncated and exact encodings; encoded_fixed_size() of every catalogue type vs the model; DecodeLength::len on generated values (incl. 20k-element ones) of the six collections and of tuples led by them, and on mutated strings. Oracles on the implementation: skip == decode (ok-ness and position), len == true element count, fixed size == every value's size. non-trivial = distinct request whose model answer is not `err` Also: every count-prefix class boundary as a bare prefix; skip through an unknown-length input and IoReader; skip under memory limits; long strings with a character cut short at 4 KiB multiples followed by ASCII (skip must fail like decode).",
         "level_text": "Proved in Lean: DecodeLength::len on encode(coll) ++ rest is the element count, for all six collection kinds and tuples led by them; for every type and every byte string skip succeeds iff decode succeeds and then leaves the input at the same position (including the [T;N] override that skips fixed-size elements one at a time while decode reads them in bulk - shown equivalent to one bulk read); a reported encoded_fixed_size is the length of every value's encoding. Tied to the crate by the skip/len streams and oracles.",
         "level_note": "Trusted: as C01. After a *failed* skip/decode the position of the input is not compared (the bulk decode leaves a slice untouched where the element-wise skip has consumed some elements; the property speaks of success position and of failing exactly when decode fails).",
         "trusted_base": COMMON_TB,
@@ -357,7 +357,7 @@ PROPS = {
     },
     "C19": {
         "streams": ["count", "wrapops"],
-        "rule": "(i) the wrapper itself: seeded operation sequences (read n with n in {0,1,small,exact remaining,remaining+1,huge}, read_byte, remaining_len, descend_ref, ascend_ref, on_before_alloc_mem; length 1..100) applied to a real CountedInput over a slice and to the model's countedInput sliceInput, the operation's result and count() compared after every operation; (ii) decoders through it for every catalogue type on exact, suffixed, mutated and truncated encodings: on success value, remaining and count are compared with the model; after success AND failure the implementation-side oracle count() == original_len - remaining_len is checked (positions at failure are not compared with the model). non-trivial = distinct request whose model answer is not `err`",
+        "rule": "(i) the wrapper itself: seeded operation sequences (read n with n in {0,1,small,exact remaining,remaining+1,huge}, read_byte, remaining_len, descend_ref, ascend_ref, on_before_alloc_mem; length 1..100) applied to a real CountedInput over a slice and to the model's countedInput sliceInput, the operation's result and count() compared after every operation; (ii) decoders through it for every catalogue type on exact, suffixed, mutated and truncated encodings: on success value, remaining and count are compared with the model; after success AND failure the implementation-side oracle count() == original_len - remaining_len is checked (positions at failure are not compared with the model). non-trivial = distinct request whose model answer is not `err` Also: op sequences over a probe inner input whose remaining_len is exact / None / constant / capped, slice-like or reader-like, logging the hooks it receives (cops2); CountedInput over a small-limit MemTrackingInput over the probe (cops3: refusals must not stop the counting); single reads larger than 16 KiB over data covering only part of them.",
         "level_text": "Proved in Lean for ANY wrapped input and ANY (adaptive) sequence of Input operations, successful or failing: CountedInput's count() equals the exact number of bytes the wrapped input delivered, saturated at u64::MAX, and the wrapper alters neither results nor the wrapped input (one exact-simulation theorem over all decoder programs). Over a slice: count == original length - remaining length after every decode, successful or failed; == encoded length after decoding an encoding; a failed read adds nothing; the counter never decreases nor exceeds u64::MAX. Tied to src/counted_input.rs by operation sequences on the real wrapper and by all catalogue decoders run through it.",
         "level_note": "Trusted: as C01. Saturation beyond 2^64 bytes cannot be exercised on real hardware; it is covered by the theorem (the model adds with min at 2^64-1 exactly as saturating_add / try_into().unwrap_or(u64::MAX)) and by the transliteration being compared on every other path.",
         "trusted_base": COMMON_TB,
@@ -365,7 +365,7 @@ PROPS = {
     },
     "C11": {
         "streams": ["limit", "decall", "big"],
-        "rule": "limit requests: for every catalogue type (nesting Vec, Box, Rc, Arc, BTreeMap, BTreeSet, LinkedList, VecDeque, BinaryHeap, Option, tuples, recursive derived Tree/Chain) on valid, mutated and suffixed encodings, every limit L = 0..need+2 (need = least succeeding limit, scan capped at 12 when none succeeds): value, remaining compared with the model; oracles: transparent (ok => equals unlimited), monotone in L, some limit succeeds when unlimited does; decode_all_with_depth_limit vs decode. non-trivial = distinct request whose model answer is not `err`; for every untampered encoding the least sufficient limit observed on the real crate is compared with the model's nesting(ty, v)",
+        "rule": "limit requests: for every catalogue type (nesting Vec, Box, Rc, Arc, BTreeMap, BTreeSet, LinkedList, VecDeque, BinaryHeap, Option, tuples, recursive derived Tree/Chain) on valid, mutated and suffixed encodings, every limit L = 0..need+2 (need = least succeeding limit, scan capped at 12 when none succeeds): value, remaining compared with the model; oracles: transparent (ok => equals unlimited), monotone in L, some limit succeeds when unlimited does; decode_all_with_depth_limit vs decode. non-trivial = distinct request whose model answer is not `err`; for every untampered encoding the least sufficient limit observed on the real crate is compared with the model's nesting(ty, v) Also: every limit of the limit stream repeated through a decoder that reads via CountedInput (ViaCounted<T>); `big`: 2502-item vectors whose only nested item lies behind the first preallocation chunk, wide sibling holders.",
         "level_text": "Proved in Lean for every type, byte string and limit (lax simulation theorem over all decoder programs between the unlimited input, a depth-recording specification input and the transliterated DepthTrackingInput): limited decoding returns exactly the unlimited result (value and position) or an error; when unlimited decoding succeeds, the limited one succeeds with the same result IFF L >= need, where need is the maximal number of simultaneously open descend_ref calls of the unlimited run (hence monotone in L, success for all L >= need, failure for all L < need); decode_all_with_depth_limit succeeds iff decode_with_depth_limit succeeds with nothing left. Tied to the crate by the limit stream over all L around the threshold. The abstract needed depth is made concrete by the hook-trace theorem (Proofs/HookTrace.lean: decoding the encoding of ANY well-formed value makes exactly the hook calls hookTrace ty v, through the chunked, bulk and from_iter paths): needDepth = nesting ty v, the container nesting of the value (Box/Rc/Arc, lists, tree maps/sets and element-wise vectors cost a level; vectors of primitives, strings, byte buffers, bit sequences none; components take the maximum) - hence limited decoding of an encoding succeeds IFF nesting <= L (succeeds_iff_nesting_le, deeper_than_limit_rejected), and the depth counter returns to where it started (depth_balanced: siblings do not accumulate).",
         "level_note": "Trusted: as C01. Partial: (1) 'stack-safe' - the theorem bounds the number of open descend_ref levels, i.e. decoder frames of heap-allocating containers, not machine stack bytes; survival of 10^6-deep input on a small stack is a harness observation (thorough tier), not a theorem. (2) need <= value nesting depth is checked by the tie (every L from 0), the theorem fixes need as a property of the unlimited run.",
         "trusted_base": COMMON_TB,
@@ -373,7 +373,7 @@ PROPS = {
     },
     "C12": {
         "streams": ["mem", "wrapops", "bigmem"],
-        "rule": "mem requests for every DecodeWithMemTracking catalogue type on valid and mutated encodings: first L = usize::MAX (gives U = used_mem()), then every L in 0..=U+1 when U <= 96 (4096 thorough), boundary limits {0,1,U/2,U-1,U,U+1,2U} otherwise: result, remaining and used_mem() compared with the model after success and failure; oracles: non-binding limit transparent, success for all L > U, failure for all 0 < L <= U; plus operation sequences (hook sizes incl. 0, usize::MAX and saturating sums; limits incl. 0 and usize::MAX) on a real MemTrackingInput vs the model, used_mem() compared after every operation. non-trivial = distinct request whose model answer is not `err`; for every untampered encoding used_mem() of the real crate is compared with the model's payload(ty, v)",
+        "rule": "mem requests for every DecodeWithMemTracking catalogue type on valid and mutated encodings: first L = usize::MAX (gives U = used_mem()), then every L in 0..=U+1 when U <= 96 (4096 thorough), boundary limits {0,1,U/2,U-1,U,U+1,2U} otherwise: result, remaining and used_mem() compared with the model after success and failure; oracles: non-binding limit transparent, success for all L > U, failure for all 0 < L <= U; plus operation sequences (hook sizes incl. 0, usize::MAX and saturating sums; limits incl. 0 and usize::MAX) on a real MemTrackingInput vs the model, used_mem() compared after every operation. non-trivial = distinct request whose model answer is not `err`; for every untampered encoding used_mem() of the real crate is compared with the model's payload(ty, v) Also: usage seen through decode_with_depth_limit over a MemTrackingInput, through CountedInput over it and through a tracker stacked on a tracker must equal U; skip under every limit agrees with decode; the probe inner input (mops2).",
         "level_text": "Proved in Lean for every type, byte string and limit L <= usize::MAX: memory-limited decoding returns exactly the unlimited result or an error; with U the tracked usage of the unlimited run, if unlimited decoding succeeds then L > U gives the same value, position and used_mem = U, and U > 0 with L <= U gives an error - a single exact threshold (hence monotone). The hook sizes (chunked vec reservations, Box sizes, list node sizes, the transliterated mem_size_of_btree estimate) are part of the decoder model and compared with used_mem() of the real MemTrackingInput on every request. The threshold is meaningful: by the hook-trace theorem the sizes announced while decoding the encoding of any well-formed value add up to exactly payload ty v - element count x element size per sequence, pointee size per box, string/byte-buffer length, bit-sequence storage words, the crate's node estimate for trees, summed over nesting (tracked_usage_is_payload: U = min(payload, usize::MAX)); U = 0 for heap-free types (usage_zero_without_heap); a successful memory-limited decode implies payload < L (limit_bounds_payload); the tree estimate is within a factor of two of the entries' own bytes (tree_estimate_within_factor_two, arithmetic on the transliterated mem_size_of_btree).",
         "level_note": "Trusted: as C01; size_of values and the b-tree leaf size are measured by the harness in the same build and passed in the type descriptor. Partial: 'U is zero for values holding no heap data and at least the payload bytes' is established per request by comparing the model's U with the real used_mem() and by the kernel-checked examples; the general value-level lower bound is not yet a theorem.",
         "trusted_base": COMMON_TB + ["size_of::<T>() measured by the harness"],
@@ -381,7 +381,7 @@ PROPS = {
     },
     "C08": {
         "streams": ["stacks", "big"],
-        "rule": "for every catalogue type, on exact, suffixed, mutated and truncated encodings: the same bytes decoded through 12 input stacks - &[u8], IoReader<Cursor>, IoReader over a reader delivering 1..3 bytes per call, a custom Input with remaining_len = None, decode_from_bytes (shared buffer incl. zero-copy path), CountedInput / MemTrackingInput(usize::MAX) / depth-limit(u32::MAX) alone and nested three deep in different orders over slice, unknown-length and short-read inputs; oracle on the implementation: every stack gives the slice's outcome (ok value + bytes consumed | err); the slice, IoReader and BytesCursor outcomes are also compared with the model's three input instances. non-trivial = distinct request whose model answer is not `err`",
+        "rule": "for every catalogue type, on exact, suffixed, mutated and truncated encodings: the same bytes decoded through 12 input stacks - &[u8], IoReader<Cursor>, IoReader over a reader delivering 1..3 bytes per call, a custom Input with remaining_len = None, decode_from_bytes (shared buffer incl. zero-copy path), CountedInput / MemTrackingInput(usize::MAX) / depth-limit(u32::MAX) alone and nested three deep in different orders over slice, unknown-length and short-read inputs; oracle on the implementation: every stack gives the slice's outcome (ok value + bytes consumed | err); the slice, IoReader and BytesCursor outcomes are also compared with the model's three input instances. non-trivial = distinct request whose model answer is not `err` Also: many sibling holders (8/70/300 Box/Rc/Arc elements, also of zero-sized pointees) under depth limits 3 and 8 alone and under counting+memory wrappers; big lengths and straddling strings through unknown-length inputs; `decbc` answered by the model's BytesCursor with position arithmetic (cursorInput).",
         "level_text": "Proved in Lean (lax simulation theorem over all decoder programs): over ANY input that delivers the bytes faithfully - whatever it reports as remaining length and wherever it stands after a failed read - every decoder returns what it returns over the slice: same success/failure and value, and on success the same bytes consumed. Instances proved faithful: the slice, the unknown-length read_exact reader (IoReader / short-chunk readers / custom None-length inputs), the BytesCursor incl. its zero-copy scale_internal_decode_bytes override, and CountedInput over any faithful input. Depth- and memory-limit wrappers over ANY input are proved transparent (same result and wrapped-input state) whenever their limit is non-binding (>= needed depth / > tracked usage) and never to turn a failure into a success; so wrappers stack in any order. The only decoder branch that consults remaining_len (read_vec_from_u8s) is shown to reject early exactly when the chunked reads would reject later. Tied to the crate by the stacks stream.",
         "level_note": "Trusted: as C01; std::io::Read::read_exact and bytes::Bytes (advance/split_to) are modelled by contract (all-or-nothing delivery). After a FAILED decode the position of a non-slice input is unspecified and not compared. Inputs longer than usize::MAX bytes are excluded (`bounded`).",
         "trusted_base": COMMON_TB + ["std::io::Read::read_exact, std::io::Cursor, bytes::Bytes modelled by contract"],
@@ -390,7 +390,7 @@ PROPS = {
     "C13": {
         "streams": ["mel", "skip"],
         "disagreement_is_violation": False,
-        "rule": "for every catalogue type that implements MaxEncodedLen (observed by a compile-time trait probe; 87 types: primitives, NonZero, Compact, Option/Result, tuples, arrays, Box/Arc, PhantomData, Duration, ranges, derived structs/enums with compact / encoded_as / skipped fields and variants, generic instantiations): max_encoded_len() vs the model's transliteration; for every type marked ConstEncodedLen (probe): the model must mark it too; encoded_fixed_size() of every catalogue type vs the model; oracles on the implementation over 300 (3000 thorough) boundary-biased values per type: no encoding longer than the declared maximum, CEL types always exactly the maximum, fixed-size types always that size; the evidence records for how many types the maximum was attained. non-trivial = distinct request whose model answer is not `err`",
+        "rule": "for every catalogue type that implements MaxEncodedLen (observed by a compile-time trait probe; 87 types: primitives, NonZero, Compact, Option/Result, tuples, arrays, Box/Arc, PhantomData, Duration, ranges, derived structs/enums with compact / encoded_as / skipped fields and variants, generic instantiations): max_encoded_len() vs the model's transliteration; for every type marked ConstEncodedLen (probe): the model must mark it too; encoded_fixed_size() of every catalogue type vs the model; oracles on the implementation over 300 (3000 thorough) boundary-biased values per type: no encoding longer than the declared maximum, CEL types always exactly the maximum, fixed-size types always that size; the evidence records for how many types the maximum was attained. non-trivial = distinct request whose model answer is not `err` Also: derived enums with a skipped variant before a same-shaped live one, a 10-variant generic enum instantiated narrow-then-wide, mel_bound(skip_type_params) types (oracle only), mixed-width tuple arrays for encoded_fixed_size.",
         "level_text": "Proved in Lean for every type with a declared maximum (built-in impls and the derive's formula, for all definitions: compact / encoded_as fields, skipped fields and variants, generics) and every well-formed value: encoded length <= max_encoded_len() (the code's saturating computation is shown to be the mathematical maximum capped at usize::MAX); for every ConstEncodedLen-marked type the encoded length is exactly the declared one; when encoded_fixed_size() is Some(n) every value has n bytes. The transliterated tables are tied to src/max_encoded_len.rs, src/const_encoded_len.rs and derive/src/max_encoded_len.rs by comparing max_encoded_len() / CEL membership (trait probes) / encoded_fixed_size() for every catalogue type.",
         "level_note": "Trusted: as C01. Finding F1 (derive ignored compact/encoded_as) was a genuine defect and is repaired by a fix: commit in /repo (see known_findings.json `fixed`); on the unrepaired tree the mel stream reports it as an implementation-vs-oracle failure with the failing value. Hypothesis melNat <= usize::MAX (no saturation) is needed because a saturated declaration is not a bound for astronomically large array types.",
         "trusted_base": COMMON_TB + ["trait probes (inherent item shadows trait item) for MaxEncodedLen / ConstEncodedLen membership"],
@@ -398,7 +398,7 @@ PROPS = {
     },
     "C15": {
         "streams": ["append"],
-        "rule": "append_or_new histories: 1..5 batches of {0,1,2,3,7,62,63,64} items of u8, u32, String, Vec<u8>, (), a derived newtype, by value and by reference, Vec and VecDeque targets, starting from empty input or from an encoded sequence of {0,1,2,5,61..65} elements; alias item forms (&str into Vec<String>, Box<u32> into Vec<u32>); forged count prefixes n on and around 63/64, 2^14, 2^30, 2^31, 2^32 followed by a short payload, combined with iterators whose len() is {0,1,2,63,64,2^14,2^30-1,2^30,2^32-2,2^32-1,2^32,2^32+1,2^33+7,usize::MAX} (the code never inspects payload or items, so these reach every prefix-width change and the overflow cheaply); random prefixes that are not valid counts; thorough: a genuine iterator of 2^32+1 zero-sized items. Oracles: result == encode of the whole sequence; unrepresentable count => error; invalid prefix => error. non-trivial = distinct request whose model answer is not `err`",
+        "rule": "append_or_new histories: 1..5 batches of {0,1,2,3,7,62,63,64} items of u8, u32, String, Vec<u8>, (), a derived newtype, by value and by reference, Vec and VecDeque targets, starting from empty input or from an encoded sequence of {0,1,2,5,61..65} elements; alias item forms (&str into Vec<String>, Box<u32> into Vec<u32>); forged count prefixes n on and around 63/64, 2^14, 2^30, 2^31, 2^32 followed by a short payload, combined with iterators whose len() is {0,1,2,63,64,2^14,2^30-1,2^30,2^32-2,2^32-1,2^32,2^32+1,2^33+7,usize::MAX} (the code never inspects payload or items, so these reach every prefix-width change and the overflow cheaply); random prefixes that are not valid counts; thorough: a genuine iterator of 2^32+1 zero-sized items. Oracles: result == encode of the whole sequence; unrepresentable count => error; invalid prefix => error. non-trivial = distinct request whose model answer is not `err` Also: single batches taking the count across two prefix widths at once (1 -> 4 bytes) for u8/u32/Marker items; over-long zero-padded and other non-canonical count prefixes.",
         "level_text": "Proved in Lean for an ARBITRARY payload and items (the transliterated append_or_new_impl never inspects them): appending m items to compact(n) ++ payload yields compact(n+m) ++ payload ++ items whenever n+m <= u32::MAX - in particular appending to the encoding of a vector or deque gives the encoding of the concatenation, across every prefix-width change; appending to empty input gives the encoding of the items alone; any history of appends equals one encode of the concatenation (induction over batches); n+m > u32::MAX or m > u32::MAX gives an error, never a wrong count; input not beginning with a valid count is rejected; no panic site (copy_from_slice length, slice index) is reachable. Tied to src/encode_append.rs by the append stream.",
         "level_note": "Trusted: as C01. Finding F3 (items_to_append as u32 truncation) was a genuine defect, repaired by a fix: commit in /repo; on the unrepaired tree the forged-prefix stream reports it with the failing (n, m). hfit: the existing buffer fits twice into the address space (the code's own checked_mul(2) error is proved to be the only other outcome). ExactSizeIterator::len() is trusted by the code for the count; the model takes len and the yielded items' bytes as separate inputs.",
         "trusted_base": COMMON_TB,
@@ -406,7 +406,7 @@ PROPS = {
     },
     "C07": {
         "streams": ["sinks", "bulk", "big"],
-        "rule": "for every catalogue type, generated values through six sinks - encode(), encode_to(Vec), encode_to(an io::Write accepting 1..7 bytes per call, i.e. through write_all), encode_to(&mut dyn Output), using_encoded, encoded_size - oracle: all equal; encode / using_encoded / encoded_size compared with the model's three entry points; all twelve primitive element types x lengths {0,1,2,3,17,c-1,c,c+1,2c+1} (c = 16KiB/size; thorough: 64 more incl. up to 3c+1) x {slice, Vec, wrapped VecDeque, arrays of 0/1/7/32/33} against the element-wise twin newtype: encodings equal; the same (exact, truncated, extended) bytes decoded by the bulk and by the element-wise decoder: same outcome. non-trivial = distinct request whose model answer is not `err`",
+        "rule": "for every catalogue type, generated values through six sinks - encode(), encode_to(Vec), encode_to(an io::Write accepting 1..7 bytes per call, i.e. through write_all), encode_to(&mut dyn Output), using_encoded, encoded_size - oracle: all equal; encode / using_encoded / encoded_size compared with the model's three entry points; all twelve primitive element types x lengths {0,1,2,3,17,c-1,c,c+1,2c+1} (c = 16KiB/size; thorough: 64 more incl. up to 3c+1) x {slice, Vec, wrapped VecDeque, arrays of 0/1/7/32/33} against the element-wise twin newtype: encodings equal; the same (exact, truncated, extended) bytes decoded by the bulk and by the element-wise decoder: same outcome. non-trivial = distinct request whose model answer is not `err` Also: sequences and arrays of validating one-byte elements (bool, OptionBool, NonZero*, Option<bool>) vs element-wise twins on damaged bytes; `join` (Joiner::and / KeyedVec::to_keyed_vec vs the model) for every catalogue value; tuples whose size_hint under-reports (encodings > 256 bytes) through every entry point; wrapped deques with a short first and a long second slice and vice versa.",
         "level_text": "Proved in Lean: every impl overrides at least one of the three mutually-defaulting Encode methods, so all four entry points terminate for every type (and an impl overriding none - what the derive emitted for an all-skipped enum before the fix - provably never terminates); for every well-formed value encode, encode_to, using_encoded and encoded_size describe the same byte string (the last as its length), and the fixed-capacity buffer of CompactRef::using_encoded never overflows; any sink whose write appends observes the same bytes however the encoder splits them into write calls; bulk encoding of primitive slices (and of both ring-buffer slices of a deque, for every split) equals element-wise encoding; bulk decoding of a primitive vector accepts exactly the byte strings its element-wise twin accepts, with the same elements and consumption. Tied to the crate by six sinks per value and bulk-vs-twin comparisons on all 12 primitive types.",
         "level_note": "Trusted: as C01. The reinterpretation of memory in the bulk paths is modelled as little-endian bytes (the harness records the target's endianness); how each impl splits its output into write/push_byte calls is not modelled - the sink theorem quantifies over all splittings instead. Finding F2 (all four defaults of an all-skipped enum recurse forever) was a genuine defect, repaired by a fix: commit.",
         "trusted_base": COMMON_TB + ["std::io::Write::write_all modelled by contract"],
@@ -415,7 +415,7 @@ PROPS = {
     "C16": {
         "streams": ["like"],
         "disagreement_is_violation": True,
-        "rule": "(i) the crate's EncodeLike table observed by compile-time trait probes over all ordered pairs of ~55 representative types (owned, &T, &&T, &mut T, Box/Rc/Arc/Cow, Option/Result/array/tuple with alias elements, Vec/&[T]/VecDeque/LinkedList/BinaryHeap/BTreeSet/BTreeMap and their entry slices, String/&str, Vec<u8>/&[u8]/Bytes, Ref<T,U>, a derived type): every pair the crate declares is sent to the model's decision procedure encodesLike, which must accept it (a wrongly added impl such as u32: EncodeLike<u64> flips a probe and is rejected by the model); (ii) for ~30 declared pairs, generated values of A (built as borrowed / boxed / converted views of an owned value) are encoded, decoded as B (compared with the model), and checked on the implementation: decodes completely, re-encodes to the same bytes (unless B normalises), and equals the encoding of the value the alias stands for. non-trivial = distinct request whose model answer is not `err`",
+        "rule": "(i) the crate's EncodeLike table observed by compile-time trait probes over all ordered pairs of ~55 representative types (owned, &T, &&T, &mut T, Box/Rc/Arc/Cow, Option/Result/array/tuple with alias elements, Vec/&[T]/VecDeque/LinkedList/BinaryHeap/BTreeSet/BTreeMap and their entry slices, String/&str, Vec<u8>/&[u8]/Bytes, Ref<T,U>, a derived type): every pair the crate declares is sent to the model's decision procedure encodesLike, which must accept it (a wrongly added impl such as u32: EncodeLike<u64> flips a probe and is rejected by the model); (ii) for ~30 declared pairs, generated values of A (built as borrowed / boxed / converted views of an owned value) are encoded, decoded as B (compared with the model), and checked on the implementation: decodes completely, re-encodes to the same bytes (unless B normalises), and equals the encoding of the value the alias stands for. non-trivial = distinct request whose model answer is not `err` Also: compact references at value level (CompactRef(&x) for all five widths and through CompactAs, &Compact, Box<Compact>).",
         "level_text": "Proved in Lean: the SCALE encoding of a value depends only on the shape of its type - holders (Box/Rc/Arc; &T, &mut T, Cow, Ref are already the held type) and the flavour of a count-prefixed collection (vector, slice, deque, list, heap, set, map entries) are invisible - so types of equal shape encode every value byte-for-byte alike, and the bytes of a value of A decode as B to the corresponding logical value, normalised as B normalises (entries decoded as a map come back sorted); byte buffers encode like sequences of u8, strings like byte buffers, (T,) / single-field structs like the field, &[(T,)] like a set of T; each impl family of the crate is an instance. The decision procedure encodesLike is tied to the crate by the probe matrix: every declared pair must be accepted.",
         "level_note": "Trusted: as C01; the trait probes; the harness's descriptor table for reference forms. Compact/CompactRef pairs are not probed in the matrix (the probe makes rustc's trait solver overflow); CompactRef is covered through compact fields in C05/C01. An EncodeLike impl over a type constructor outside the probed list would be invisible to the matrix.",
         "trusted_base": COMMON_TB + ["trait probes for A: EncodeLike<B>"],
@@ -443,7 +443,7 @@ PROPS = {
         "streams": [],
         "custom": c17_run,
         "disagreement_is_violation": True,
-        "rule": "generated enum definitions over {index attribute, explicit discriminant, implicit position, skip} assignments with indices drawn boundary-biased from 0..=300 (0,1,2,3,254,255,256,257,300 and random; rustc's own discriminant rules respected), each paired with a minimally different twin (an invalid one repaired, a valid one given a collision); the finite set of attribute-conflict cases (all 8 subsets of skip/compact/encoded_as on a struct field and on a variant field), a union, 256 vs 257 encodable variants with and without skipped ones, and the CompactAs shapes (tuple / named-with-skipped / two fields / unit / only-skipped / enum); every program derives Encode and Decode together; one module file per program in one scratch crate, compiled with ONE cargo check --message-format=json per shard (120 programs quick, 5x300 thorough) against the crate's derive; rejected(p) := some error diagnostic lies in p's file (through the macro-expansion span chain); compared with the model's accepts(p) on the program's surface descriptor; oracle: a planted fault must be rejected and a fault-free twin must compile. non-trivial = distinct program",
+        "rule": "generated enum definitions over {index attribute, explicit discriminant, implicit position, skip} assignments with indices drawn boundary-biased from 0..=300 (0,1,2,3,254,255,256,257,300 and random; rustc's own discriminant rules respected), each paired with a minimally different twin (an invalid one repaired, a valid one given a collision); the finite set of attribute-conflict cases (all 8 subsets of skip/compact/encoded_as on a struct field and on a variant field), a union, 256 vs 257 encodable variants with and without skipped ones, and the CompactAs shapes (tuple / named-with-skipped / two fields / unit / only-skipped / enum); every program derives Encode and Decode together; one module file per program in one scratch crate, compiled with ONE cargo check --message-format=json per shard (120 programs quick, 5x300 thorough) against the crate's derive; rejected(p) := some error diagnostic lies in p's file (through the macro-expansion span chain); compared with the model's accepts(p) on the program's surface descriptor; oracle: a planted fault must be rejected and a fault-free twin must compile. non-trivial = distinct program Also: attribute conflicts written as one comma-separated list; both orders of index/skip attributes; discriminants given by constant expressions colliding with literal-known indices; the same type parameter in plain and skipped/compact roles (valid, must compile).",
         "level_text": "Proved in Lean: the transliterated decision logic of the derive (per-field attribute exclusivity, try_get_variants' > 256 bound, variant_index precedence, the generated const block's search_for_invalid_index and the nested-loop duplicate_info) accepts a definition IFF it is valid in the property's sense - no two encodable variants share an index (whether from index attributes, discriminants or implicit positions among the NON-skipped variants), no index exceeds 255, at most 256 encodable variants, at most one of skip/compact/encoded_as per field, not a union; duplicate_info is complete (reports iff not Nodup); derive(CompactAs) is accepted iff the input is a struct with exactly one non-skipped field. The decision model is tied to the real derive + rustc by compiling generated programs and comparing accept/reject per program.",
         "level_note": "Partial by nature: that rustc expands the macro, evaluates the generated const block and reports its panic as a compile error is the compiler's behaviour, observed (per program, by file attribution of JSON diagnostics), not proved. Bound generation (trait_bounds.rs) enters only through 'valid twins compile'. Field types are u32 throughout (C05 covers type variety).",
         "trusted_base": COMMON_TB + ["rustc / cargo check JSON diagnostics; the program generator (definition -> source + surface descriptor)"],
